@@ -356,7 +356,9 @@ def t_many(ctx):
     ctx.hyp(s_many(), ctx.n(6, 60))
     # the same boundaries, every combination once (count 252 / 253 / 254 of inputs, outputs, witness items; with and without witness)
     k_ = 0
-    for n in (252, 253, 254, 300):
+    # ... and counts at round numbers where OTHER rules (standardness, the interpreter's stack, message limits) draw a line that
+    # the wire format does not know: 100/101, 1000/1001, 2000/2001, 10,001
+    for n in (252, 253, 254, 300, 100, 101, 1000, 1001, 2000, 2001, 10001):
         for which in ('vin', 'vout', 'witems'):
             for wit_on in (False, True):
                 k_ += 1
@@ -369,7 +371,7 @@ def t_many(ctx):
                 elif which == 'vout':
                     t['vout'] = [[i, '51'] for i in range(n)]
                 else:
-                    t['wit'] = [['%02x' % (i % 256) for i in range(n)]]
+                    t['wit'] = [['%02x' % (i % 256) if n <= 300 or i % 7 else '' for i in range(n)]]
                 ctx.run({'kind': 'tx', 'tx': t, 'ext': ['00'], 'cuts': [5, 41, 2000, 9000], 'faults_mutable': False})
     for v in ctx.my([0, 1, 0xfc, 0xfd, 0xfe, 0xff, 0x100, 0xffff, 0x10000, 0x10001, 0xffffffff, 0x100000000, 0x100000001,
                      2 ** 63, 2 ** 64 - 1, 0x7fffffff, 0x80000000]):
